@@ -9,6 +9,5 @@ Print Assumptions C01_example_result.
 Print Assumptions C15_compete_semi_optimum_path_forest.
 Print Assumptions C15_semi_optimal.
 Print Assumptions C15_semi_empty_is_supervised.
-Print Assumptions C15_semi_empty_label_refuted.
 Print Assumptions C15_example_premises.
 Print Assumptions C15_example_result.
